@@ -15,24 +15,94 @@ Definition reply_of (m : out) : option (callid * bool) :=
 Lemma pair_eta : forall c : callid, (fst c, snd c) = c.
 Proof. intros [a b]; reflexivity. Qed.
 
+(** ** What a YIELD of the invocation's owner sends *)
+Lemma opt_bool_ppt_into : forall opts base, opt_bool (ppt_into opts base) "progress" = opt_bool base "progress".
+Proof.
+  intros. unfold opt_bool. rewrite ppt_into_fold, dget_fold_ppt_other; [reflexivity|]. not_ppt_key.
+Qed.
+
+(** every message is either THE reply to the caller (RESULT, or — for a final
+    passthru YIELD that cannot be delivered — ERROR(CALL) with the caller's
+    own request id), final iff the YIELD is not progressive, or goes back to
+    the yielding callee and is no reply *)
+Lemma yield_out_msgs : forall lk callee req opts args kw cid x m,
+    In m (yield_out lk callee req opts args kw cid x) ->
+    reply_of m = Some ((x, snd cid), negb (opt_bool opts "progress")) \/
+    (fst m = callee /\ reply_of m = None).
+Proof.
+  intros lk callee req opts args kw cid x m. unfold yield_out, ppt_caller_err.
+  destruct (opt_bool opts "progress") eqn:Hp; destruct (ppt_active opts);
+    destruct (has_ppt lk callee "callee"); destruct (has_ppt lk x "caller"); cbn [negb app];
+    intros H; repeat (destruct H as [<-|H]); try destruct H; cbn [reply_of fst];
+    rewrite ?opt_bool_ppt_into; auto.
+Qed.
+
+(** at most one of them is a reply *)
+Definition one_reply (o : list out) : Prop :=
+  forall o1 m o2, o = o1 ++ m :: o2 -> reply_of m <> None -> forall m', In m' (o1 ++ o2) -> reply_of m' = None.
+
+Lemma one_reply_single : forall x, one_reply [x].
+Proof.
+  intros x o1 m o2 E _ m' Hin. destruct o1 as [|a o1]; cbn in E.
+  - inversion E; subst. destruct Hin.
+  - inversion E as [[E1 E2]]. destruct o1; discriminate E2.
+Qed.
+
+Lemma one_reply_pair : forall a b, reply_of a = None \/ reply_of b = None -> one_reply [a; b].
+Proof.
+  intros a b H o1 m o2 E Hr m' Hin. destruct o1 as [|x [|y o1]]; cbn in E.
+  - inversion E; subst. cbn in Hin. destruct Hin as [<-|[]]. destruct H; congruence.
+  - inversion E; subst. cbn in Hin. destruct Hin as [<-|[]]. destruct H; congruence.
+  - inversion E as [[E1 E2 E3]]. destruct o1; discriminate E3.
+Qed.
+
+Lemma yield_out_one_reply : forall lk callee req opts args kw cid x,
+    one_reply (yield_out lk callee req opts args kw cid x).
+Proof.
+  intros lk callee req opts args kw cid x. unfold yield_out, ppt_caller_err.
+  destruct (opt_bool opts "progress"); destruct (ppt_active opts);
+    destruct (has_ppt lk callee "callee"); destruct (has_ppt lk x "caller"); cbn [negb app];
+    first [apply one_reply_single | apply one_reply_pair; first [left; reflexivity | right; reflexivity]].
+Qed.
+
+(** a final YIELD always sends the caller its final reply *)
+Lemma yield_out_final : forall lk callee req opts args kw cid x,
+    opt_bool opts "progress" = false ->
+    exists m, In m (yield_out lk callee req opts args kw cid x) /\ reply_of m = Some ((x, snd cid), true).
+Proof.
+  intros lk callee req opts args kw cid x Hp. unfold yield_out, ppt_caller_err. rewrite Hp.
+  destruct (ppt_active opts); destruct (has_ppt lk callee "callee"); destruct (has_ppt lk x "caller"); cbn [negb app];
+    first [ solve [eexists; split; [left; reflexivity | cbn [reply_of]; rewrite ?opt_bool_ppt_into; reflexivity]]
+          | solve [eexists; split; [right; left; reflexivity | cbn [reply_of]; rewrite ?opt_bool_ppt_into; reflexivity]] ].
+Qed.
+
 (** ** Answer routing (C03) *)
-Theorem answer_routing_yield_proof : forall lookup d callee req opts args kw,
+Theorem answer_routing_yield_proof : forall lookup lk d callee req opts args kw,
     dealer_wf lookup d ->
     match cget (d_invs d) (callee, req) with
     | Some inv =>
         let cid := inv_call inv in
+        let o := snd (sync_yield lk d callee req opts args kw) in
         pending d cid (callee, req) inv (fst cid) /\
-        snd (sync_yield d callee req opts args kw) =
-        [(fst cid, RResult (snd cid) (if opt_bool opts "progress" then [("progress", VBool true)] else []) args kw)]
+        o = yield_out lk callee req opts args kw cid (fst cid) /\
+        (ppt_active opts = false ->
+         o = [(fst cid, RResult (snd cid) (if opt_bool opts "progress" then [("progress", VBool true)] else []) args kw)]) /\
+        (forall m, In m o -> reply_of m = Some (cid, negb (opt_bool opts "progress")) \/
+                             (fst m = callee /\ reply_of m = None)) /\
+        (forall o1 m o2, o = o1 ++ m :: o2 -> reply_of m <> None -> forall m', In m' (o1 ++ o2) -> reply_of m' = None)
     | None =>
-        sync_yield d callee req opts args kw =
+        sync_yield lk d callee req opts args kw =
         (d, if opt_bool opts "progress" then [(callee, RInterrupt req [("mode", vstr "killnowait")])] else [])
     end.
 Proof.
-  intros lookup d callee req opts args kw WF.
+  intros lookup lk d callee req opts args kw WF.
   destruct (cget (d_invs d) (callee, req)) as [inv|] eqn:Hi; [|apply sync_yield_unknown; exact Hi].
-  pose proof (wf_inv_pending lookup d WF _ _ Hi) as Hp. split; [exact Hp|].
-  rewrite (sync_yield_owner _ _ _ _ _ _ _ Hi). cbn [snd]. destruct Hp as (Hc & _). rewrite Hc. reflexivity.
+  pose proof (wf_inv_pending lookup d WF _ _ Hi) as Hp. cbv zeta. split; [exact Hp|].
+  rewrite (sync_yield_owner _ _ _ _ _ _ _ _ Hi). cbn [snd]. destruct Hp as (Hc & _). rewrite Hc.
+  split; [reflexivity|]. split; [|split].
+  - intros Hn. rewrite yield_out_plain by exact Hn. reflexivity.
+  - intros m Hm. apply yield_out_msgs in Hm. rewrite pair_eta in Hm. exact Hm.
+  - apply yield_out_one_reply.
 Qed.
 
 Theorem answer_routing_error_proof : forall lookup d callee req det err args kw,
@@ -52,17 +122,58 @@ Proof.
 Qed.
 
 (** ** Prompt final replies (C02) *)
-Theorem prompt_yield_final_proof : forall lookup d callee req opts args kw inv,
+Theorem prompt_yield_final_proof : forall lookup lk d callee req opts args kw inv,
     dealer_wf lookup d -> cget (d_invs d) (callee, req) = Some inv ->
     opt_bool opts "progress" = false ->
     let cid := inv_call inv in
-    exists d', sync_yield d callee req opts args kw = (d', [(fst cid, RResult (snd cid) [] args kw)]) /\
-               gone d' cid (callee, req).
+    exists d' o, sync_yield lk d callee req opts args kw = (d', o) /\
+                 gone d' cid (callee, req) /\
+                 (exists m, In m o /\ reply_of m = Some (cid, true)) /\
+                 (forall m, In m o -> reply_of m = Some (cid, true) \/ (fst m = callee /\ reply_of m = None)) /\
+                 (ppt_active opts = false -> o = [(fst cid, RResult (snd cid) [] args kw)]).
 Proof.
-  intros lookup d callee req opts args kw inv WF Hi Hp cid.
+  intros lookup lk d callee req opts args kw inv WF Hi Hp cid.
   pose proof (wf_inv_pending lookup d WF _ _ Hi) as (Hc & _).
-  rewrite (sync_yield_owner _ _ _ _ _ _ _ Hi), Hp, Hc.
-  eexists. split; [reflexivity | apply gone_drop_call].
+  rewrite (sync_yield_owner _ _ _ _ _ _ _ _ Hi), Hp, Hc. unfold yield_result_state.
+  eexists; eexists. split; [reflexivity|]. split; [apply gone_drop_call|]. split; [|split].
+  - destruct (yield_out_final lk callee req opts args kw (inv_call inv) (fst (inv_call inv)) Hp) as (m & Hm & R).
+    rewrite pair_eta in R. eauto.
+  - intros m Hm. apply yield_out_msgs in Hm. rewrite pair_eta, Hp in Hm. exact Hm.
+  - intros Hn. rewrite yield_out_plain by exact Hn. rewrite Hp. reflexivity.
+Qed.
+
+(** a final passthru YIELD that cannot be delivered (the callee or the caller
+    did not announce payload_passthru_mode) still ends the call: the caller
+    gets ERROR(CALL) with its own request id *)
+Theorem yield_ppt_undeliverable_ends_call_proof : forall lookup lk d callee req opts args kw inv,
+    dealer_wf lookup d -> cget (d_invs d) (callee, req) = Some inv ->
+    opt_bool opts "progress" = false -> ppt_active opts = true ->
+    let cid := inv_call inv in
+    has_ppt lk callee "callee" = false \/ has_ppt lk (fst cid) "caller" = false ->
+    exists d' o, sync_yield lk d callee req opts args kw = (d', o) /\
+                 gone d' cid (callee, req) /\
+                 In (fst cid, RError c_CALL (snd cid) ppt_error_details e_feature_not_supported [] []) o /\
+                 (forall m, In m o ->
+                    m = (fst cid, RError c_CALL (snd cid) ppt_error_details e_feature_not_supported [] []) \/
+                    m = (callee, RAbort [("message", vstr "<text>")] e_protocol_violation) \/
+                    m = (callee, RError c_YIELD req ppt_error_details e_feature_not_supported [] [])) /\
+                 (yield_aborts lk d callee req opts = true -> has_ppt lk callee "callee" = false) /\
+                 (has_ppt lk callee "callee" = false -> In (callee, RAbort [("message", vstr "<text>")] e_protocol_violation) o).
+Proof.
+  intros lookup lk d callee req opts args kw inv WF Hi Hp Ha cid Hl.
+  pose proof (wf_inv_pending lookup d WF _ _ Hi) as (Hc & _).
+  rewrite (sync_yield_owner _ _ _ _ _ _ _ _ Hi), Hp, Hc. unfold yield_result_state, yield_out, ppt_caller_err.
+  rewrite Hp, Ha. fold cid.
+  eexists; eexists. split; [reflexivity|]. split; [apply gone_drop_call|].
+  assert (Hy : yield_aborts lk d callee req opts = true -> has_ppt lk callee "callee" = false).
+  { unfold yield_aborts, has_ppt. rewrite Hi, Hc, Ha. cbn [andb].
+    destruct (lk callee); [|reflexivity]. intros E. apply negb_true_iff in E. exact E. }
+  destruct (has_ppt lk callee "callee") eqn:H1; cbn [negb app].
+  - destruct Hl as [Hl|Hl]; [discriminate|]. rewrite Hl. cbn [negb].
+    split; [right; left; reflexivity|]. split; [|split; [exact Hy | discriminate]].
+    intros m [<-|[<-|[]]]; auto.
+  - split; [left; reflexivity|]. split; [|split; [exact Hy | intros _; right; left; reflexivity]].
+    intros m [<-|[<-|[]]]; auto.
 Qed.
 
 Theorem prompt_error_proof : forall lookup d callee req det err args kw inv,
@@ -85,9 +196,11 @@ Theorem cancel_kill_then_answer_proof : forall lookup d caller req opts ikey inv
     pending d (caller, req) ikey inv x -> inv_canceled inv = false ->
     callee_can_cancel lookup inv = true ->
     let d1 := fst (cancel lookup d caller req opts) in
-    (forall yopts args kw, opt_bool yopts "progress" = false ->
-       exists d2, sync_yield d1 (fst ikey) (snd ikey) yopts args kw = (d2, [(caller, RResult req [] args kw)]) /\
-                  gone d2 (caller, req) ikey) /\
+    (forall lk yopts args kw, opt_bool yopts "progress" = false ->
+       exists d2 o, sync_yield lk d1 (fst ikey) (snd ikey) yopts args kw = (d2, o) /\
+                    gone d2 (caller, req) ikey /\
+                    (exists m, In m o /\ reply_of m = Some ((caller, req), true)) /\
+                    (ppt_active yopts = false -> o = [(caller, RResult req [] args kw)])) /\
     (forall det err args kw,
        exists d2, sync_error d1 (fst ikey) (snd ikey) det err args kw = (d2, [(caller, RError c_CALL req det err args kw)]) /\
                   gone d2 (caller, req) ikey).
@@ -101,9 +214,10 @@ Proof.
   set (inv' := inv_set_timer (inv_set_canceled inv true) None) in *.
   assert (Hcall' : inv_call inv' = (caller, req)) by exact Hcall.
   split.
-  - intros yopts args kw Hpr.
-    destruct (prompt_yield_final_proof lookup d1 (fst ikey) (snd ikey) yopts args kw inv' WF1 Hi' Hpr) as (d2 & E2 & G2).
-    rewrite Hcall' in E2, G2. cbn [fst snd] in E2. rewrite pair_eta in G2. eauto.
+  - intros lk yopts args kw Hpr.
+    destruct (prompt_yield_final_proof lookup lk d1 (fst ikey) (snd ikey) yopts args kw inv' WF1 Hi' Hpr)
+      as (d2 & o & E2 & G2 & M2 & _ & P2).
+    rewrite Hcall' in G2, M2, P2. cbn [fst snd] in P2. rewrite pair_eta in G2. eauto 8.
   - intros det err args kw.
     destruct (prompt_error_proof lookup d1 (fst ikey) (snd ikey) det err args kw inv' WF1 Hi') as (d2 & E2 & G2).
     rewrite Hcall' in E2, G2. cbn [fst snd] in E2. rewrite pair_eta in G2. eauto.
@@ -133,9 +247,9 @@ Qed.
 
 (** ** Junk is harmless (C02) *)
 Theorem junk_harmless_proof : forall lookup d sid req,
-    (forall opts args kw, cget (d_invs d) (sid, req) = None ->
-       fst (sync_yield d sid req opts args kw) = d /\
-       forall m, In m (snd (sync_yield d sid req opts args kw)) ->
+    (forall lk opts args kw, cget (d_invs d) (sid, req) = None ->
+       fst (sync_yield lk d sid req opts args kw) = d /\
+       forall m, In m (snd (sync_yield lk d sid req opts args kw)) ->
                  m = (sid, RInterrupt req [("mode", vstr "killnowait")]) /\ opt_bool opts "progress" = true) /\
     (forall det err args kw, cget (d_invs d) (sid, req) = None ->
        sync_error d sid req det err args kw = (d, [])) /\
